@@ -13,9 +13,9 @@ theorem shl_eq (a k : Nat) : a <<< k = a * 2 ^ k := Nat.shiftLeft_eq a k
 
 /-- the view timeout doubles with every view (dbft.go:150, send.go:75) -/
 theorem view_timeout_doubles (tpb v : Nat) :
-    baseTimeout tpb false v = tpb * 2 ^ (v + 1) ∧
-    baseTimeout tpb false (v + 1) = 2 * baseTimeout tpb false v ∧
-    afterChangeView tpb v = baseTimeout tpb false (v + 1) ∧
+    baseTimeout tpb false v v = tpb * 2 ^ (v + 1) ∧
+    baseTimeout tpb false (v + 1) (v + 1) = 2 * baseTimeout tpb false v v ∧
+    afterChangeView tpb v = baseTimeout tpb false (v + 1) (v + 1) ∧
     afterChangeView tpb (v + 1) = 2 * afterChangeView tpb v := by
   simp only [baseTimeout, afterChangeView, shl_eq, Bool.false_eq_true, if_false]
   have e1 : tpb * 2 ^ (v + 1 + 1) = 2 * (tpb * 2 ^ (v + 1)) := by
@@ -26,7 +26,7 @@ theorem view_timeout_doubles (tpb v : Nat) :
 
 /-- a primary of a later view starts at once; a primary of view 0 waits one block time (dbft.go:142-148) -/
 theorem primary_timeouts (tpb v : Nat) :
-    baseTimeout tpb true 0 = tpb ∧ baseTimeout tpb true (v + 1) = 0 ∧ afterRequest tpb 0 = tpb ∧
+    baseTimeout tpb true 0 0 = tpb ∧ baseTimeout tpb true (v + 1) (v + 1) = 0 ∧ afterRequest tpb 0 = tpb ∧
     afterRequest tpb (v + 1) = tpb * 2 ^ (v + 2) := by
   simp only [baseTimeout, afterRequest, shl_eq, if_true, beq_self_eq_true]
   refine ⟨trivial, by simp, by omega, by simp⟩
@@ -34,13 +34,13 @@ theorem primary_timeouts (tpb v : Nat) :
 /-- the block-time wait: a primary whose dBFT is reset at `reset`, having started the previous round
 (`lastBlockTime`) at `lb`, proposes at `lb + TimePerBlock` — the wait counts from the previous proposal -/
 theorem primary_block_time_wait (tpb lb reset : Nat) (h1 : lb ≤ reset) (h2 : reset - lb ≤ tpb) :
-    reset + roundTimeout tpb true 0 (some (some (reset - lb))) = lb + tpb := by
+    reset + roundTimeout tpb true 0 0 (some (some (reset - lb))) = lb + tpb := by
   simp only [roundTimeout, baseTimeout, if_true, beq_self_eq_true]
   omega
 
 /-- … and a backup's view-0 deadline is two block times after the previous proposal reached it -/
 theorem backup_round_deadline (tpb lb reset : Nat) (h1 : lb ≤ reset) (h2 : reset - lb ≤ 2 * tpb) :
-    reset + roundTimeout tpb false 0 (some (some (reset - lb))) = lb + 2 * tpb := by
+    reset + roundTimeout tpb false 0 0 (some (some (reset - lb))) = lb + 2 * tpb := by
   simp only [roundTimeout, baseTimeout, shl_eq, Bool.false_eq_true, if_false]
   omega
 
@@ -51,7 +51,7 @@ theorem initConsensus_timer (k : W → Pl → W) (e : Env) (w : W) (view ts : Na
     let nd := reset e w.nd view ts
     (initConsensus k e w view ts).nd.timer =
       { h := nd.bi, v := nd.view, armed := true,
-        dur := roundTimeout e.tpb (nd.isPrimary && !nd.recovering) nd.view
+        dur := roundTimeout e.tpb (nd.isPrimary && !nd.recovering) view nd.view
           (if nd.lbIndex + 1 == nd.bi then some (nd.lbTime.map fun t => w.now - t) else none) } := by
   simp only [initConsensus, W.upd, stopTx, W.emit, hc, Option.map_none, changeTimer, Node.isPrimary]
 
@@ -70,11 +70,11 @@ instance (c : Clock) (P0 δ : Nat) : Decidable (c.ok P0 δ) := by unfold Clock.o
 
 /-- the primary's timer: when it fires, the primary proposes -/
 def proposalTime (tpb : Nat) (pr : Clock) : Nat :=
-  pr.reset + roundTimeout tpb true 0 (some (some (pr.reset - pr.lb)))
+  pr.reset + roundTimeout tpb true 0 0 (some (some (pr.reset - pr.lb)))
 
 /-- a backup's view-0 deadline, extensions not counted -/
 def backupDeadline (tpb : Nat) (c : Clock) : Nat :=
-  c.reset + roundTimeout tpb false 0 (some (some (c.reset - c.lb)))
+  c.reset + roundTimeout tpb false 0 0 (some (some (c.reset - c.lb)))
 
 /-- C19 (liveness under synchrony, with time bounds; one round). Message delay at most `δ`, `3δ <
 TimePerBlock`, the previous round proposed at `P0` (every validator's clock `ok`). Then
